@@ -163,4 +163,213 @@ theorem defaultReturnPath_facts (e : Env) (c : RwCfg) (st : ISt) :
   · simp
   · split <;> simp [h1, h2]
 
+/-! ### `htypeseen` / `flagresent` over the whole header (audit repair: `isResent` is now determined) -/
+
+/-- the header types that make a message "resent" (`flagresent` in `finishheader` / `exitnicely`) -/
+def resentTypes : List Nat :=
+  [Gen.H_R_SENDER, Gen.H_R_FROM, Gen.H_R_REPLYTO, Gen.H_R_TO, Gen.H_R_CC, Gen.H_R_BCC, Gen.H_R_DATE, Gen.H_R_MESSAGEID]
+
+/-- the field is one of the eight Resent- fields `hfield_known` recognises -/
+def isResentField (h : Bytes) : Bool := resentTypes.contains (hfieldKnown h)
+
+theorem isResent_eq (st : ISt) : isResent st = resentTypes.any (fun k => st.seen.contains k) := rfl
+
+theorem isResent_seen {s t : ISt} (h : s.seen = t.seen) : isResent s = isResent t := by
+  simp [isResent_eq, h]
+
+theorem any_contains_cons (l s : List Nat) (x : Nat) :
+    l.any (fun k => (x :: s).contains k) = (l.contains x || l.any (fun k => s.contains k)) := by
+  induction l with
+  | nil => simp
+  | cons a l ih =>
+    rw [List.any_cons, ih, List.any_cons, List.contains_cons, List.contains_cons]
+    have : (a == x) = (x == a) := BEq.comm
+    rw [this]
+    cases (x == a) <;> cases s.contains a <;> cases l.contains x <;> simp
+
+theorem isResent_cons (st st' : ISt) (k : Nat) (h : st'.seen = k :: st.seen) :
+    isResent st' = (resentTypes.contains k || isResent st) := by
+  rw [isResent_eq, isResent_eq, h, any_contains_cons]
+
+/-- **one field, `htypeseen`**: a field that is processed either records its type, or it is skipped /
+fatal / unknown — and then it is not a Resent- field -/
+theorem doheaderfield_seen (e : Env) (c : RwCfg) (st : ISt) (h : Bytes) (hd : st.dead = none) :
+    (doheaderfield e c st h).seen = hfieldKnown h :: st.seen ∨
+    ((doheaderfield e c st h).seen = st.seen ∧ isResentField h = false) := by
+  have hsr := setReturn_lists e
+  unfold doheaderfield isResentField
+  generalize hfieldKnown h = k
+  simp only [hd, Option.isSome_none, Bool.false_eq_true, if_false]
+  by_cases h1 : (hasFlag e 'f' && decide (k = Gen.H_FROM)) = true
+  · rw [if_pos h1]
+    have hk : k = Gen.H_FROM := by simp at h1; exact h1.2
+    right; subst hk; exact ⟨rfl, by decide⟩
+  · rw [if_neg h1]
+    by_cases h2 : (hasFlag e 'i' && decide (k = Gen.H_MESSAGEID)) = true
+    · rw [if_pos h2]
+      have hk : k = Gen.H_MESSAGEID := by simp at h2; exact h2.2
+      right; subst hk; exact ⟨rfl, by decide⟩
+    · rw [if_neg h2]
+      by_cases h3 : (hasFlag e 's' && decide (k = Gen.H_RETURNPATH)) = true
+      · rw [if_pos h3]
+        have hk : k = Gen.H_RETURNPATH := by simp at h3; exact h3.2
+        right; subst hk; exact ⟨rfl, by decide⟩
+      · rw [if_neg h3]
+        by_cases h4 : (decide (k = 0) && !hfieldValid h) = true
+        · rw [if_pos h4]
+          have hk : k = 0 := by simp at h4; exact h4.1
+          right; subst hk; exact ⟨rfl, by decide⟩
+        · rw [if_neg h4]
+          by_cases hk : k = 0
+          · right
+            subst hk
+            refine ⟨?_, by decide⟩
+            clear h1 h2 h3 h4
+            simp only [ne_eq, not_true_eq_false, if_false]
+            (repeat' split) <;> simp [hsr]
+          · left
+            clear h1 h2 h3 h4
+            simp only [ne_eq, hk, not_false_eq_true, if_true]
+            (repeat' split) <;> simp [hsr]
+
+/-- **the whole header, `flagresent`**: if qmail-inject survives all fields, the message counts as resent
+exactly when the state did before or one of the fields is a Resent- field -/
+theorem header_resent (e : Env) (c : RwCfg) (fields : List Bytes) :
+    ∀ (st : ISt), (fields.foldl (doheaderfield e c) st).dead = none →
+      isResent (fields.foldl (doheaderfield e c) st) = (isResent st || fields.any isResentField) := by
+  induction fields with
+  | nil => intro st _; simp
+  | cons h r ih =>
+    intro st hd
+    simp only [List.foldl_cons] at hd ⊢
+    have d1 := (header_lists e c r _ hd).1
+    have d0 := doheaderfield_dead e c st h d1
+    rw [ih _ hd]
+    rcases doheaderfield_seen e c st h d0 with hs | ⟨hs, hr⟩
+    · rw [isResent_cons st _ _ hs]
+      simp only [List.any_cons, isResentField]
+      cases resentTypes.contains (hfieldKnown h) <;> cases isResent st <;> simp
+    · rw [isResent_seen hs, List.any_cons, hr]; simp
+
+theorem mapOpt_some (f : Bytes → Option Bytes) (l : List Bytes) :
+    ∀ ys, mapOpt f l = some ys → ys = l.filterMap f ∧ ∀ x ∈ l, (f x).isSome = true := by
+  induction l with
+  | nil => intro ys h; simp [mapOpt] at h; subst h; simp
+  | cons x r ih =>
+    intro ys h
+    unfold mapOpt at h
+    cases hx : f x with
+    | none => simp [hx] at h
+    | some y =>
+      cases hr : mapOpt f r with
+      | none => simp [hx, hr] at h
+      | some zs =>
+        simp only [hx, hr, Option.some.injEq] at h
+        obtain ⟨e1, e2⟩ := ih zs hr
+        subst h
+        refine ⟨by simp [hx, e1], ?_⟩
+        intro z hz
+        simp only [List.mem_cons] at hz
+        rcases hz with rfl | hz
+        · simp [hx]
+        · exact e2 z hz
+
+/-! ### the saved header over the whole header -/
+
+/-- what a header field contributes to the saved header (`savedh_append`): nothing if it is deleted by a
+QMAILINJECT letter (`f` From, `i` Message-ID, `s` Return-Path) or is one of the four dropped types (Bcc,
+Resent-Bcc, Return-Path, Content-Length); its own text if it carries no addresses; else the rewritten text
+`rewriteField` returns (the unparsed `taout`, or the original text when a `rwmayfail` field does not parse) -/
+def savedContribution (e : Env) (c : RwCfg) (h : Bytes) : List Bytes :=
+  let k := hfieldKnown h
+  if (hasFlag e 'f' && k = Gen.H_FROM) || (hasFlag e 'i' && k = Gen.H_MESSAGEID) || (hasFlag e 's' && k = Gen.H_RETURNPATH) then []
+  else if fieldDropped k then []
+  else if (fieldClass k).1 = 0 then [h]
+  else [(rewriteField c (fieldClass k).2 h).1]
+
+theorem setReturn_savedh (e : Env) (st : ISt) (got : List (List Tok)) : (setReturn e st got).savedh = st.savedh := by
+  unfold setReturn
+  split <;> simp
+
+/-- one field: `savedh` grows by exactly the field's contribution, or qmail-inject dies -/
+theorem doheaderfield_savedh_or (e : Env) (c : RwCfg) (st : ISt) (h : Bytes) (hd : st.dead = none) :
+    (doheaderfield e c st h).savedh = st.savedh ++ savedContribution e c h ∨
+    (doheaderfield e c st h).dead = some 100 := by
+  have hsr := setReturn_savedh e
+  unfold doheaderfield
+  unfold savedContribution
+  generalize hfieldKnown h = k
+  have hd2 : st.dead.isSome = false := by simp [hd]
+  simp only [hd2, Bool.false_eq_true, if_false]
+  by_cases h1 : (hasFlag e 'f' && decide (k = Gen.H_FROM)) = true
+  · simp [h1]
+  · rw [if_neg h1]
+    by_cases h2 : (hasFlag e 'i' && decide (k = Gen.H_MESSAGEID)) = true
+    · simp [h2]
+    · rw [if_neg h2]
+      by_cases h3 : (hasFlag e 's' && decide (k = Gen.H_RETURNPATH)) = true
+      · simp [h3]
+      · rw [if_neg h3]
+        by_cases h4 : (decide (k = 0) && !hfieldValid h) = true
+        · rw [if_pos h4]; right; rfl
+        · rw [if_neg h4]
+          have hflags : ((hasFlag e 'f' && decide (k = Gen.H_FROM)) || (hasFlag e 'i' && decide (k = Gen.H_MESSAGEID)) ||
+              (hasFlag e 's' && decide (k = Gen.H_RETURNPATH))) = false := by
+            simp only [Bool.not_eq_true] at h1 h2 h3
+            simp [h1, h2, h3]
+          rw [hflags]
+          simp only [Bool.false_eq_true, if_false]
+          generalize hst1 : (if k ≠ 0 then ({ st with seen := k :: st.seen } : ISt) else st) = st1
+          have a1 : st1.savedh = st.savedh := by rw [← hst1]; split <;> rfl
+          clear h1 h2 h3 h4 hflags hst1
+          generalize fieldClass k = fc
+          obtain ⟨cls, mf⟩ := fc
+          simp only []
+          generalize rewriteField c mf h = r
+          obtain ⟨txt, got, die⟩ := r
+          simp only []
+          by_cases hc0 : cls = 0
+          · subst hc0
+            cases hdrop : fieldDropped k <;> simp [a1]
+          · simp only [hc0, if_false]
+            cases die with
+            | true => right; simp
+            | false =>
+              left
+              simp only [Bool.false_eq_true, if_false]
+              cases hdrop : fieldDropped k <;> simp only [Bool.false_eq_true, if_false, if_true] <;>
+                (repeat' split) <;> simp [a1, hsr]
+
+/-- **one field, saved header**: if qmail-inject survives the field, `savedh` grows by exactly the field's contribution -/
+theorem doheaderfield_savedh (e : Env) (c : RwCfg) (st : ISt) (h : Bytes) (hd : st.dead = none)
+    (hd' : (doheaderfield e c st h).dead = none) :
+    (doheaderfield e c st h).savedh = st.savedh ++ savedContribution e c h := by
+  rcases doheaderfield_savedh_or e c st h hd with h1 | h1
+  · exact h1
+  · rw [hd'] at h1; exact absurd h1 (by simp)
+
+/-- **the whole header, saved header**: if qmail-inject survives all fields, the saved header is the
+concatenation of the fields' contributions, in order -/
+theorem header_savedh (e : Env) (c : RwCfg) (fields : List Bytes) :
+    ∀ (st : ISt), (fields.foldl (doheaderfield e c) st).dead = none →
+      (fields.foldl (doheaderfield e c) st).savedh = st.savedh ++ fields.flatMap (savedContribution e c) := by
+  induction fields with
+  | nil => intro st _; simp
+  | cons h r ih =>
+    intro st hd
+    simp only [List.foldl_cons] at hd ⊢
+    have d1 := (header_lists e c r _ hd).1
+    have d0 := doheaderfield_dead e c st h d1
+    rw [ih _ hd, doheaderfield_savedh e c st h d0 d1]
+    simp
+
+theorem defaultReturnPath_savedh (e : Env) (c : RwCfg) (st : ISt) :
+    (defaultReturnPath e c st).savedh = st.savedh := by
+  have h1 := setReturn_savedh e
+  unfold defaultReturnPath
+  simp only []
+  split
+  · simp
+  · split <;> simp [h1]
+
 end Nq.Lemmas.C17
